@@ -400,6 +400,19 @@ def array_attr(np_, a, name):
                 t = sum_fn(kd)(a.term, z3.IntVal(0), term_of(raw(a.shape[0]), "int"))
             return mk(t, kd, True)
         return Builtin("sum", sum_)
+    if name == "cumsum":
+        def cumsum(axis=None, dtype=None, **k):
+            # running sums: element k is the recursive sum of the first k + 1 elements (accumulator type asked from numpy)
+            if a.ndim != 1:
+                raise Untranslatable("cumsum of n-d symbolic-extent array")
+            kd = kind_of_dtype(a.dtype)
+            if kd == "bool":
+                raise Untranslatable("cumsum of bool symbolic-extent array")
+            dt = _np.ones(1, a.dtype).cumsum(dtype=None if dtype is None else _np.dtype(dtype)).dtype
+            if kind_of_dtype(dt) != kd:
+                raise Untranslatable("cumsum into another kind of dtype on a symbolic-extent array")
+            return from_fn(np_, a.shape, dt, lambda kk: sum_fn(kd)(a.term, z3.IntVal(0), kk + 1))
+        return Builtin("cumsum", cumsum)
     if name in ("max", "min"):
         def extremum(*x, **k):
             if a.ndim != 1:
